@@ -105,11 +105,13 @@ class W9(EWorld):
     """remembers which Server object every mock socket was opened for (observation only)"""
 
     async def _open(self, transport, host, port):
-        task = asyncio.current_task()
+        # the caller is the open_connection coroutine of the current task; its `command` local names the connection
+        # (handler.transports is not filled in yet when the task was started eagerly)
         conn = None
-        for c, io in self.handler.transports.items():
-            if io.handler is task:
-                conn = c
+        try:
+            conn = asyncio.current_task().get_coro().cr_frame.f_locals["command"].connection
+        except (AttributeError, KeyError):
+            pass
         self.conn_of_end = getattr(self, "conn_of_end", {})
         self.conn_of_end[len(self.servers)] = conn
         return await super()._open(transport, host, port)
@@ -150,38 +152,42 @@ class Exec:
             acts.append(("ok", pend[0]))
         client_up = not w.client.r.eof
         if not w.suspended and not pend:
-            # scripted life of the connection
+            # scripted life of the connection: data both ways, one upstream closes (a waiting connect gets
+            # its semaphore slot), the client closes, the remaining upstreams close
             if client_up and st["c_data"] == 0:
                 acts.append(("c_data",))
             elif opens and st["s_data"] == 0:
                 acts.append(("s_data", opens[0]))
+            elif opens and st["s_eof"] == 0:
+                acts.append(("s_eof", opens[0]))
             elif client_up:
                 acts.append(("c_eof",))
             elif opens:
                 acts.append(("s_eof", opens[0]))
         if not acts:
-            return []
-        # alternatives / faults
+            return [], []
+        # alternatives / faults: `main` ones cost one deviation, `minor` variants two
+        minor = []
         if pend:
             acts.append(("refuse", pend[0]))
         if client_up:
             if st["c_data"] < 2:
-                acts.append(("c_data",))
                 acts.append(("c_data_drain_c",))
                 if opens:
                     acts.append(("c_data_drain_s", opens[0]))
+                minor.append(("c_data",))
             if self.lay != "tcp" and st["c_close"] < 2:
                 acts.append(("c_close_srv",))
             acts.append(("c_eof",))
-            acts.append(("c_err",))
+            minor.append(("c_err",))
         if opens:
             if st["s_data"] < 2:
                 acts.append(("s_data", opens[0]))
-                acts.append(("s_data_drain_c", opens[0]))
+                minor.append(("s_data_drain_c", opens[0]))
             acts.append(("s_eof", opens[0]))
-            acts.append(("s_err", opens[0]))
+            minor.append(("s_err", opens[0]))
             if len(opens) > 1:
-                acts.append(("s_eof", opens[-1]))
+                minor.append(("s_eof", opens[-1]))
         if len(w.suspended) > 1:
             acts.append(("hook", len(w.suspended) - 1))
         if w.loop.next_timer() is not None and not st["timed_out"]:
@@ -191,7 +197,7 @@ class Exec:
             if a not in seen:
                 seen.add(a)
                 out.append(a)
-        return out
+        return out, [a for a in minor if a not in seen]
 
     def apply_raw(self, w, a, st):
         """perform the environment event without running the loop"""
@@ -200,7 +206,7 @@ class Exec:
         wm._CURRENT = w
         if kind == "hook":
             fut = w.suspended[a[1]][2]
-            st["completed"].append(id(w.suspended[a[1]]))
+            st["completed"].append((w.suspended[a[1]][0], id(w.suspended[a[1]][1])))
             call(lambda: (not fut.done()) and fut.set_result(None))
         elif kind == "ok":
             e = w.servers[a[1]]
@@ -232,6 +238,7 @@ class Exec:
                 w.client.w.drain_error = OSError("drain failed")
             call(w.servers[a[1]].send, b"y")
         elif kind == "s_eof":
+            st["s_eof"] += 1
             e = w.servers[a[1]]
             e.r.eof = True
             call(e.eof)
@@ -257,7 +264,8 @@ class Exec:
     def injectable(self, w, st, first):
         """second events that can arrive before the loop has processed `first`"""
         out = []
-        for a in self.enabled(w, st):
+        main, minor = self.enabled(w, st)
+        for a in main + minor:
             if a == first or a[0] in ("timeout",):
                 continue
             if a[0] == "hook" and first[0] == "hook":
@@ -274,10 +282,16 @@ class Exec:
     # ------------------------------------------------------------------ one execution
     def run(self, prefix, t: Tally, verbose=False):
         k = LAYERS[self.lay]
-        w = W9(mode="reverse:tcp://10.0.0.1:80", policy=make_policy(self.pol),
-               suspend=(lambda name, data, world: name == self.susp) if self.susp != "none" else None,
+        st = {"c_data": 0, "s_data": 0, "s_eof": 0, "c_close": 0, "timed_out": False, "completed": [], "max_open": 0, "held": []}
+
+        def suspend(name, data, world):
+            if name == self.susp:
+                st["held"].append((name, id(data)))  # the environment holds this hook (it may get cancelled under it)
+                return True
+            return False
+
+        w = W9(mode="reverse:tcp://10.0.0.1:80", policy=make_policy(self.pol), suspend=suspend if self.susp != "none" else None,
                layer_factory=(lambda ctx: MultiLayer(ctx, k)) if k else None, eager=self.eager)
-        st = {"c_data": 0, "s_data": 0, "c_close": 0, "timed_out": False, "completed": [], "max_open": 0, "held": []}
         choices, widths, costs = [], [], []
         trace = []
 
@@ -294,18 +308,28 @@ class Exec:
             w.start()
             self.observe(w, st)
             for _ in range(80):
-                acts = self.enabled(w, st)
+                acts, minor = self.enabled(w, st)
                 if not acts:
                     break
-                a = acts[choose(len(acts), 1)] if len(acts) > 1 else acts[0]
-                inj = self.injectable(w, st, a) if self.inject_cost else []
-                self.apply_raw(w, a, st)
+                i = choose(len(acts), 1) if len(acts) > 1 else 0
+                a = acts[i]
                 step = [a]
-                if inj:
-                    j = choose(len(inj) + 1, self.inject_cost)
-                    if j:
-                        self.apply_raw(w, inj[j - 1], st)
-                        step.append(inj[j - 1])
+                second = None
+                if i == 0 and self.inject_cost:
+                    # second choice point of the step (costs more): a minor fault variant instead of the default,
+                    # or a second event injected before the loop has settled
+                    inj = self.injectable(w, st, a)
+                    if minor or inj:
+                        j = choose(1 + len(minor) + len(inj), self.inject_cost)
+                        if 1 <= j <= len(minor):
+                            a = minor[j - 1]
+                            step = [a]
+                        elif j > len(minor):
+                            second = inj[j - 1 - len(minor)]
+                self.apply_raw(w, a, st)
+                if second is not None:
+                    self.apply_raw(w, second, st)
+                    step.append(second)
                 self.settle(w)
                 trace.append(step)
                 self.observe(w, st)
@@ -322,9 +346,6 @@ class Exec:
     def observe(self, w, st):
         n = sum(1 for e in w.servers if e.state == "open" and not e.w.closed and e.address == ADDR)
         st["max_open"] = max(st["max_open"], n)
-        for rec in w.suspended:
-            if not any(rec is h for h in st["held"]):
-                st["held"].append(rec)
 
     def close_out(self, w, st):
         for _ in range(80):
@@ -375,9 +396,9 @@ class Exec:
         names = [n for n, _ in w.hooks]
         # hooks the environment held: completed by the environment, or cancelled under it
         held = {}
-        for rec in st["held"]:
-            status = "completed" if id(rec) in st["completed"] else ("pending" if any(rec is r for r in w.suspended) else "cancelled")
-            held[(rec[0], id(rec[1]))] = status
+        for hk_key in st["held"]:
+            still = any((r[0], id(r[1])) == hk_key for r in w.suspended)
+            held[hk_key] = "completed" if hk_key in st["completed"] else ("pending" if still else "cancelled")
         per = {}
         order = []
         for i, (name, data) in enumerate(w.hook_objs):
@@ -487,17 +508,33 @@ def specs(tier):
 
 
 def make_exec(key):
-    return Exec(*key)
+    return Exec(*key[:5])
+
+
+def bound_of(key):
+    return key[5]
+
+
+BOUNDS = {
+    # layer -> deviation bound (a minor fault variant or an injection costs INJECT_COST deviations)
+    "quick": {"tcp": 2, "k2": 2, "k6": 1, "k7": 1},
+    "thorough": {"tcp": 3, "k2": 2, "k6": 2, "k7": 2},
+}
+INJECT_COST = 2
 
 
 def run(ctx):
-    bound = ctx.pick(2, 3)
-    inject_cost = 2
-    sp = [s + (inject_cost,) for s in specs(ctx.tier)]
-    ctx.bounds = {"layers": list(LAYERS), "suspended_hook": SUSPEND, "policies": POLICIES, "deviation_bound": bound,
-                  "injection": "one pre-quiescence injection costs %d deviations" % inject_cost, "specs": len(sp)}
-    ctx.log("%d specs, deviation bound %d" % (len(sp), bound))
-    mbfs.dfs_dev_many(sp, make_exec, bound, ctx.tally, log=ctx.log)
+    bounds = BOUNDS[ctx.tier]
+    sp = []
+    for s in specs(ctx.tier):
+        b = bounds[s[0]]
+        if ctx.tier == "quick" and s[0] == "k6" and s[1] in ("none", "server_connect") and s[2] == "none" and s[3]:
+            b = 2
+        sp.append(s + (min(INJECT_COST, b), b))
+    ctx.bounds = {"layers": list(LAYERS), "suspended_hook": SUSPEND, "policies": POLICIES, "deviation_bound_per_layer": bounds,
+                  "minor_variant_or_injection_costs": INJECT_COST, "specs": len(sp)}
+    ctx.log("%d specs" % len(sp))
+    mbfs.dfs_dev_many(sp, make_exec, bound_of, ctx.tally, log=ctx.log)
 
 
 def replay(case, t, verbose=False):
